@@ -14,6 +14,7 @@ MenuC04(s) ==
     LET us == Candidates(s) IN
     {One("Create", PCreate(m, <<>>)) : m \in Masks}
     \cup {One("Register", PRegister(t, AllBits, <<>>)) : t \in {"PrivateKey", "PublicKey", "SecretData", "OpaqueData", "Certificate"}}
+    \cup {One("Register", PRegisterRaw(t, AllBits)) : t \in {"PrivateKey", "PublicKey", "SplitKey"}}
     \cup {One("Activate", PUid(u)) : u \in us}
     \cup {One("Revoke", PRevoke(u, c)) : u \in us, c \in Codes}
     \cup {One("Destroy", PUid(u)) : u \in us}
